@@ -35,7 +35,13 @@ def enc(x):
 
 def dec_arr(a, cplx):
     if cplx:
-        return np.array([complex(np.nan, 0) if v is None else (complex(*v) if isinstance(v, list) else complex(v)) for v in a], dtype=np.complex128)
+        def one(v):
+            if v is None:
+                return complex(np.nan, 0)
+            if isinstance(v, list):        # [re, im]; a None component is a NaN in that component only
+                return complex(np.nan if v[0] is None else v[0], np.nan if v[1] is None else v[1])
+            return complex(v)
+        return np.array([one(v) for v in a], dtype=np.complex128)
     return np.array([np.nan if v is None else v for v in a], dtype=np.float64)
 
 
@@ -87,7 +93,12 @@ def gen_case(rng, idx):
                     if flavour in ("zeros", "both") and u < 0.25:
                         arr[i] = [0.0, 0.0] if cplx else 0.0
                     elif flavour in ("nans", "both") and u > 0.8:
-                        arr[i] = None
+                        if cplx and rng.random() < 0.6:
+                            # NaN in ONE component only: the whole entry is NaN, its finite component must not leak
+                            w = gen_value(rng, True)
+                            arr[i] = [None, w[0] if w[1] == 0 else w[1]] if rng.random() < 0.5 else [w[0], None]
+                        else:
+                            arr[i] = None
                 s[k] = arr
             samples.append(s)
         return {"kind": kind, "cplx": cplx, "keys": keys, "samples": samples}
@@ -173,22 +184,39 @@ def run_case(c):
     jx = {}
     for sec in resid:
         tree = {k: np.stack(v) for k, v in resid[sec].items()}
-        smp = jft.Samples(pos=None, samples=tree)
-        st = jft.reduced_residual_stats(smp)
-        st2, txt = jft.minisanity(smp, lambda x: x)          # the wrapper and the `func` path
+        # jft.Samples stores residuals relative to pos (`.samples` = pos + stored): pos = 0 keeps the arrays
+        # exactly and is still different from every non-zero sample
+        otherpos = {k: np.zeros_like(v[0]) for k, v in tree.items()}
+        smp = jft.Samples(pos=otherpos, samples=tree)
         jx[sec] = {}
+        try:
+            st = jft.reduced_residual_stats(smp)
+            st2, txt = jft.minisanity(smp, lambda x: x)          # the wrapper and the `func` path
+            first = {k: v[0] for k, v in tree.items()}
+            st_one = jft.reduced_residual_stats(jft.Samples(pos=otherpos, samples={k: v[:1] for k, v in tree.items()}))
+            st_pos = jft.reduced_residual_stats(first)
+        except Exception as e:  # noqa
+            for k in tree:
+                jx[sec][k] = {"error": "%s: %s" % (type(e).__name__, str(e)[:200])}
+            continue
         for k in tree:
+            one_same = all(np.array_equal(np.asarray(getattr(st_one[k], f)), np.asarray(getattr(st_pos[k], f)), equal_nan=True)
+                           for f in ("mean", "reduced_chisq", "ndof"))
             a, b = st[k], st2[k]
             same = all(np.array_equal(np.asarray(getattr(a, f)), np.asarray(getattr(b, f)), equal_nan=True) for f in ("mean", "reduced_chisq", "ndof"))
             jx[sec][k] = {"mean": complex(np.asarray(a.mean)[0]), "rcs": float(np.asarray(a.reduced_chisq)[0]),
-                          "ndof": int(a.ndof), "wrapper_same": bool(same), "fields": list(a._fields)}
+                          "ndof": int(a.ndof), "wrapper_same": bool(same), "fields": list(a._fields),
+                          "one_sample_same": bool(one_same)}
     # MAP state / single position: a Samples object WITHOUT samples and a bare position, each with a
     # `func`; the statistics must be those of func(position) as one sample
     import jax as _jax
     half = lambda t: _jax.tree_util.tree_map(lambda a: 0.5 * a, t)       # noqa: E731
     pos = {k: v[0] for k, v in resid["latent_variables"].items()}
     mp = {}
-    ref_st = jft.reduced_residual_stats(jft.Samples(pos=None, samples={k: np.stack([0.5 * v]) for k, v in pos.items()}))
+    # reference: func(position) passed as TWO identical explicit samples (their mean is exact; a single
+    # explicit sample would itself depend on how one-sample objects are treated)
+    ref_st = jft.reduced_residual_stats(jft.Samples(pos={k: np.zeros_like(v) for k, v in pos.items()},
+                                                    samples={k: np.stack([0.5 * v, 0.5 * v]) for k, v in pos.items()}))
     calls = {"samples_none_func": lambda: jft.reduced_residual_stats(jft.Samples(pos=pos, samples=None), half),
              "position_func": lambda: jft.reduced_residual_stats(pos, half),
              "minisanity_samples_none_func": lambda: jft.minisanity(jft.Samples(pos=pos, samples=None), half)[0]}
@@ -257,6 +285,8 @@ def classic_term(arrs, o, cplx):
 def jax_term(arrs, o, cplx):
     sc = scale_of(arrs)
     tol = Fraction(1, 10 ** 12) * Fraction(sc) ** 4
+    if "error" in o:
+        return "false"
     m = o["mean"]
     if np.isinf(m.real) or np.isinf(m.imag) or np.isinf(o["rcs"]):
         return "false"
@@ -313,6 +343,12 @@ def direct_failures(c, o):
             if cl["ndof"] + cl["nig"] != size or cl["nig"] not in nig:
                 out.append(({"api": "classic", "class": cls}, "classic minisanity %s/%s counts ndof=%d nigndof=%d, size %d, ignored %r" % (sec, k, cl["ndof"], cl["nig"], size, nig)))
             jx = o["jax"][sec][k]
+            if "error" in jx:
+                out.append(({"api": "jax", "class": "exception"}, "JAX reduced_residual_stats/minisanity %s raised %s" % (sec, jx["error"])))
+                continue
+            if not jx["one_sample_same"]:
+                out.append(({"api": "jax", "class": "one-sample"}, "JAX reduced_residual_stats %s/%s: a Samples object with exactly ONE sample does not give the statistics of that sample (it must not be treated like a sample-less MAP state)" % (sec, k)))
+                continue
             bad_rcs = not (abs(jx["rcs"] - rcs) <= tol)              # NaN-safe
             bad_mean = not (abs(jx["mean"] - mean) <= tol)
             bad = bad_rcs or bad_mean
@@ -337,6 +373,9 @@ CORPUS_BUILTIN = [   # the witnesses of C36_agreement_refuted, replayed on the i
     {"kind": "identity", "cplx": False, "keys": {"<None>": 2}, "samples": [{"<None>": [1.0, 0.0]}]},
     {"kind": "identity", "cplx": False, "keys": {"<None>": 2}, "samples": [{"<None>": [1.0, None]}]},
     {"kind": "identity", "cplx": True, "keys": {"<None>": 1}, "samples": [{"<None>": [[1.0, 1.0]]}]},
+    # complex entries that are NaN in ONE component only, single sample
+    {"kind": "identity", "cplx": True, "keys": {"<None>": 4}, "samples": [{"<None>": [[None, 2.0], [3.0, None], [1.0, 1.0], [0.0, 0.0]]}]},
+    {"kind": "identity", "cplx": False, "keys": {"a": 3, "bb": 2}, "samples": [{"a": [1.0, -2.0, 4.0], "bb": [0.5, 3.0]}]},
     # tiny but non-zero residuals next to an exact zero and a NaN: only the zero and the NaN are ignored
     {"kind": "identity", "cplx": False, "keys": {"<None>": 6}, "samples": [{"<None>": [1e-8, 0.0, None, 1e-300, -3e-9, 2.0]},
                                                                         {"<None>": [5e-324, 0.0, None, 1e-12, 1.0, -1e-30]}]},
